@@ -128,6 +128,14 @@ CLAIMED = {
         "Trusts Python list semantics as the reference for index arithmetic and the harness' own audit code.",
         "DESIGN.md section 4 (C15)",
     ),
+    "C20": (
+        "PBT with an independent recomputation of every summary table from the Solution and the spec (exact rational FVA for fva=float)",
+        "Exploration: generated exchange-rich models x solutions (optimize, pfba, exact vertices with noise, None) x fva "
+        "variants x rendering options; membership/side/value of every row of model and metabolite summaries, balance and "
+        "percentages, FVA scaling and swapping, objective value and non-raising rendering for every object.",
+        "Trusts the harness' own table computation and exactlp; objective value observed through the public text rendering.",
+        "DESIGN.md section 4 (C20)",
+    ),
 }
 
 PENDING_REASON = "check not built yet in this round (planned, see DESIGN.md section 4); not claimed until its check is registered"
